@@ -64,6 +64,23 @@ pub fn check_pair(rep: &mut Report, orc: &mut Oracle, rng: &mut Rng, a: &StMoc, 
       from_r2d(dt, ds, &o)
     });
     let shown = format!("{} # op={}", case, name);
+    // entry-for-entry comparison with the model of Ranges2D::merge (Model/Merge2D.v)
+    if let Ok(out) = &r {
+      let ents = |m: &StMoc| -> String {
+        let f = flat(m);
+        let mut s0 = format!("{}", f.elems.len());
+        for (t, sp) in &f.elems {
+          s0.push_str(&format!(" {} {} {}", t[0].0, t[0].1, ranges_str(sp)));
+        }
+        s0
+      };
+      let ans = orc.ask(&format!("R2DOP {} {} {}", op, ents(a), ents(b)));
+      let got = format!("OK {} {}", out.elems.len(), out.elems.iter().map(|(t, sp)| format!("{} {} {}", t[0].0, t[0].1, ranges_str(sp))).collect::<Vec<_>>().join(" "));
+      rep.evaluations += 1;
+      if got.trim() != ans.trim() {
+        rep.violation(&format!("range-2D {}: the result differs, entry for entry, from the model of Ranges2D::merge", name), &shown, &got, &ans, "C10_range2d_merge_as_written");
+      }
+    }
     match r {
       Err(p) => rep.violation_c(&format!("range-2D {} fails: {}", name, p), &shown, &p, "", "C10 (never fails)", &panic_class(&p)),
       Ok(out) => match judge(orc, op, &out, &flat(a), &flat(b)) {
